@@ -3,6 +3,8 @@
    implementation), and the model must agree with the implementation. *)
 From Coq Require Import List ZArith Bool String.
 From JM Require Import Base.Outcome Base.Bytes Json.Value Model.Api Spec.RefAst Spec.RefEval Spec.Unparse Checks.Common.
+(* text-only cases (model = implementation) may accompany the reference cases of a property *)
+From JM Require Export Checks.Basic.
 Import ListNotations.
 Open Scope Z_scope.
 
